@@ -356,7 +356,7 @@ func TestC12Loop(t *testing.T) {
 
 type c12Set struct {
 	Map        map[int]int `json:"map"`
-	Kind       string      `json:"kind"` // hwmon | file
+	Kind       string      `json:"kind"` // hwmon | file | cmd
 	NeverStop  bool        `json:"neverStop,omitempty"`
 	MinPwm     *int        `json:"minPwm,omitempty"`
 	MaxPwm     *int        `json:"maxPwm,omitempty"`
@@ -366,7 +366,13 @@ type c12Set struct {
 
 func TestC12SetPwm(t *testing.T) {
 	runProperty(t, "C12", func(t *rapid.T) c12Set {
-		sc := c12Set{Map: genPwmMap(t, "m"), Kind: rapid.SampledFrom([]string{"hwmon", "hwmon", "file"}).Draw(t, "kind")}
+		sc := c12Set{Map: genPwmMap(t, "m"), Kind: rapid.SampledFrom([]string{"hwmon", "hwmon", "hwmon", "hwmon", "file", "file", "file", "cmd"}).Draw(t, "kind")}
+		if sc.Kind == "cmd" {
+			// a script based fan (two processes per request: few requests), half of them with a getPwm command that fails
+			sc.Unreadable = rapid.Bool().Draw(t, "unreadable")
+			sc.Reqs = rapid.SliceOfN(rapid.OneOf(rapid.IntRange(-50, 305), rapid.SampledFrom([]int{0, 0, -50, 255, 305, 1})), 4, 10).Draw(t, "reqs")
+			return sc
+		}
 		if sc.Kind == "hwmon" {
 			sc.NeverStop = rapid.Bool().Draw(t, "neverStop")
 			if rapid.Bool().Draw(t, "limits") {
@@ -428,6 +434,9 @@ func TestC12SetPwm(t *testing.T) {
 			}
 		}
 		labels := []string{"setpwm", "kind:" + sc.Kind}
+		if sc.Unreadable {
+			labels = append(labels, "setpwm-"+sc.Kind+"-pwm-unreadable")
+		}
 		if sc.NeverStop && sc.MinPwm != nil && *sc.MinPwm > 0 {
 			labels = append(labels, "never-stop-minimum")
 		}
